@@ -80,6 +80,8 @@ fn session(ops: &[Value], dialect: Dialect, extra_texts: &[String], rng: &mut Rn
                 "import" => {
                     let ws: Vec<String> = op["words"].as_array().unwrap().iter().map(|w| match w { Value::String(s) => s.clone(), v => word_of(v).to_string() }).collect();
                     l.import_words(ws.clone());
+                    // every imported word becomes a probe: the clone built from the exported list must treat it alike
+                    for w in ws.iter().take(3) { if probes.len() < 14 { probes.push((format!("We use {w} here and {w} there."), Language::Plain)); } }
                     out.push(json!({"ev": "Import", "words": ws, "exported": l.export_words()}));
                 }
                 "ignore" => {
@@ -194,7 +196,9 @@ pub fn main(a: &Args) {
                     let ws: Vec<&str> = t.split(|c: char| !c.is_alphanumeric()).filter(|w| w.len() > 3).collect();
                     if !ws.is_empty() {
                         let w = ws[rng.below(ws.len())].to_string();
-                        let v = if rng.chance(1, 3) { vec![w.clone(), w.to_uppercase()] } else { vec![w] };
+                        let mut v = if rng.chance(1, 3) { vec![w.clone(), w.to_uppercase()] } else { vec![w] };
+                        // other capitalisations of curated entries (GitHub, Markdown, Linux, February): they change what is reported
+                        if rng.chance(1, 3) { v.push(["github", "markdown", "linux", "february", "JAVASCRIPT"][rng.below(5)].to_string()); }
                         ops.push(json!({"op": "import", "words": v}));
                     }
                 }
